@@ -36,6 +36,8 @@ def run(ctx):
         ctx.run_rule("R2-rm-whiteout", r2_rm, F)
         ctx.run_rule("R3-copy-up", r3_copy_up, F)
         ctx.run_rule("R4-marker-agreement", r4_markers, F)
+        ctx.run_rule("R6-live-tree", r6_live_tree, F)
+        ctx.run_rule("R7-preconditions", r7_preconditions, F)
         ctx.run_rule("R5-upper-only-mutation", c10.r1_sinks, F)
         ctx.run_rule("R5-union-rereads-markers", c10.r4_union, F)
     finally:
@@ -471,6 +473,115 @@ def captured_contains(v, b, call, needle):
     return False
 
 
+# ------------------------------------------------------------------------------------------- R7
+# (function, callee that does the work, facts that must hold at that call: (text prefix, truth))
+PRECONDITIONS = [
+    ("Layer::set_opaque", "setxattr", [("overlay::is_dir(FileSystem::getattr(self, ctx, inode, None)?.0)", True)], "only a directory is marked opaque"),
+    ("Layer::is_opaque", "call", [("overlay::is_dir(FileSystem::getattr(self, ctx, inode, None)?.0)", True)], "only a directory is asked for the opaque mark"),
+    ("OverlayInode::create_upper_dir", "handle_upper_inode_locked", [("utils::is_dir(OverlayInode::stat64(self, ctx)?)", True), ("OverlayInode::in_upper_layer(self)", False)],
+     "a directory is created in the upper layer only for a directory that has no upper copy yet"),
+    ("OverlayInode::create_upper_dir", "create_upper_dir", [("OverlayInode::in_upper_layer(self)", False), ("OverlayInode::in_upper_layer(some(Weak::upgrade(", False)],
+     "the parent is created first exactly when it has no upper copy"),
+    ("OverlayFs::empty_node_directory", "in_upper_layer", [("utils::is_dir(OverlayInode::stat64(node, ctx)?)", True)], "only a directory is emptied"),
+    ("OverlayFs::copy_regfile_up", "create_upper_dir", [("OverlayInode::in_upper_layer(node)", False), ("OverlayInode::in_upper_layer(some(Weak::upgrade(", False)],
+     "the parent directory is created in the upper layer exactly when it is missing there"),
+    ("OverlayFs::copy_symlink_up", "create_upper_dir", [("OverlayInode::in_upper_layer(node)", False), ("OverlayInode::in_upper_layer(some(Weak::upgrade(", False)],
+     "the parent directory is created in the upper layer exactly when it is missing there"),
+    ("OverlayFs::do_mkdir", "copy_node_up", [("Atomic::load(parent_node.whiteout, Relaxed)", False)], "nothing is created below a deleted directory"),
+    ("OverlayFs::do_create", "copy_node_up", [("Atomic::load(parent_node.whiteout, Relaxed)", False)], "nothing is created below a deleted directory"),
+    ("OverlayFs::do_mknod", "copy_node_up", [("Atomic::load(parent_node.whiteout, Relaxed)", False)], "nothing is created below a deleted directory"),
+    ("OverlayFs::do_symlink", "copy_node_up", [("Atomic::load(parent_node.whiteout, Relaxed)", False)], "nothing is created below a deleted directory"),
+    ("OverlayFs::do_link", "copy_node_up", [("Atomic::load(src_node.whiteout, Relaxed)", False), ("Atomic::load(new_parent.whiteout, Relaxed)", False), ("utils::is_dir(OverlayInode::stat64(src_node, ctx)?)", False)],
+     "a link is made from a live non-directory into a live directory"),
+]
+
+
+def r7_preconditions(ctx, F):
+    """Polarity of the precondition tests in front of the overlay's modifying steps: each step runs exactly when its precondition
+    holds (a negated test turns every legitimate call into a refusal, or the reverse, and the trees diverge at once)."""
+    rule = "R7-preconditions"
+    for (fn, callee, need, why) in PRECONDITIONS:
+        adt, nm = fn.split("::")
+        if adt == "Layer":
+            bs = [x for x in F.fns.values() if x.name == nm and "overlay::Layer" in x.key]
+            if len(bs) != 1:
+                raise core.Anchor(fn)
+            b = bs[0]
+        else:
+            b = F.method(OFS if adt == "OverlayFs" else OIN, nm)
+        ctx.fn_seen(b)
+        v = vf.VF(b, inline_depth=0)
+        cs = [c for c in live_calls(b) if c.name == callee]
+        if not ctx.check(rule, "%s/%s/present" % (fn, callee), bool(cs), "%s no longer calls %s" % (fn, callee), loc=b.loc()):
+            continue
+        for (pref, truth) in need:
+            ok = True
+            for c in cs:
+                g = [(R(x, b, v), l) for (x, l, u) in v.guards(c.bb)]
+                ok = ok and any(t.startswith(pref) and ((l != 0) == truth) for (t, l) in g)
+            ctx.check(rule, "%s/%s/%s%s" % (fn, callee, "" if truth else "not-", re.sub(r"[^A-Za-z_]+", "_", pref)[:40]), ok,
+                      "%s: %s must run only when `%s` is %s (%s)" % (fn, callee, pref[:70], "true" if truth else "false", why), loc=cs[0].loc())
+
+
+# ------------------------------------------------------------------------------------------- R6
+def r6_live_tree(ctx, F):
+    """The running instance's tree follows what was done on disk (otherwise it differs from a restarted one): a node created in
+    the upper layer is registered in the inode table and in its parent's children on every path that goes on; a removed
+    node is taken out of both, unconditionally, after the upper entry is gone."""
+    rule = "R6-live-tree"
+    for nm in ("do_create", "do_link", "do_mkdir", "do_mknod", "do_symlink"):
+        b = F.method(OFS, nm)
+        ctx.fn_seen(b)
+        v = vf.VF(b, inline_depth=0)
+        arcs = [c for c in live_calls(b) if c.name == "new" and "Arc" in (c.fn or "") and b.local_ty(c.dest[0]).endswith("Arc<overlayfs::OverlayInode>")]
+        if not ctx.check(rule, nm + "/new-node", len(arcs) == 1, "%s creates %d new overlay nodes (one expected: the `name does not exist yet` arm)" % (nm, len(arcs)), loc=b.loc()):
+            continue
+        node = R(v.call_expr(arcs[0]), b, v)
+        for call, want in (("insert_inode", [node + ".inode", node]), ("insert_child", ["name", node])):
+            cs = [c for c in live_calls(b) if c.name == call]
+            region = b.reach_set(arcs[0].target, avoid=set(c.bb for c in cs)) if arcs[0].target is not None else set()
+            skipped = [r for r in b.return_blocks() if r in region]
+            args_ok = bool(cs) and all([R(x, b, v) for x in v.call_args(c)[1:]] == want for c in cs)
+            ctx.check(rule, "%s/%s" % (nm, call), bool(cs) and not skipped and args_ok,
+                      "%s: the node created in the upper layer must be entered with %s(%s) on every path after its creation (calls: %s; a return is reachable without it: %s)"
+                      % (nm, call, ", ".join(want)[:80], [[R(x, b, v)[:40] for x in v.call_args(c)[1:]] for c in cs], bool(skipped)), loc=b.loc())
+    b = F.method(OFS, "do_rm")
+    v = vf.VF(b, inline_depth=0)
+    node = 'OverlayFs::lookup_node(self, ctx, parent, String::as_str(T::to_string(CStr::to_string_lossy(name))))?'
+    ri = [c for c in live_calls(b) if c.name == "remove_inode"]
+    rc = [c for c in live_calls(b) if c.name == "remove_child"]
+    ok = len(ri) == 1 and len(rc) == 1
+    if ok:
+        a1 = [R(x, b, v) for x in v.call_args(ri[0])]
+        a2 = [R(x, b, v) for x in v.call_args(rc[0])]
+        g1 = [(R(x, b, v), l) for (x, l, u) in v.guards(ri[0].bb) if not R(x, b, v).startswith("discr(")]
+        g2 = [(R(x, b, v), l) for (x, l, u) in v.guards(rc[0].bb) if not R(x, b, v).startswith("discr(")]
+        base = [c for c in live_calls(b) if c.name == "lower_layers_have_child"]
+        g0 = [(R(x, b, v), l) for (x, l, u) in v.guards(base[0].bb)] if base else []
+        g1 = [x for x in g1 if x not in g0]     # entry refusals (read-only overlay, whiteout-ed parent or node) apply to the whole operation
+        g2 = [x for x in g2 if x not in g0]
+        ok = a1[1] == node + ".inode" and a2[1] == "String::as_str(%s.name)" % node and "copy_node_up(" in a2[0] and not g1 and not g2 and bool(base)
+    ctx.check(rule, "do_rm/unregisters", ok, "do_rm must take the removed node out of the inode table and out of its parent's children, unconditionally", loc=b.loc())
+    if ok:
+        hu = [c for c in live_calls(b) if c.name == "handle_upper_inode_locked"]
+        ctx.check(rule, "do_rm/after-removal", bool(hu) and b.can_reach(hu[0].bb, ri[0].bb) and not b.can_reach(ri[0].bb, hu[0].bb),
+                  "do_rm must unregister the node after the upper entry was removed (a failed removal leaves the node in place)", loc=b.loc())
+    b = F.method(OFS, "empty_node_directory")
+    ctx.fn_seen(b)
+    v = vf.VF(b, inline_depth=0, opaque_loops=True)
+    ri = [c for c in live_calls(b) if c.name == "remove_inode"]
+    rc = [c for c in live_calls(b) if c.name == "remove_child"]
+    ok = len(ri) == 1 and len(rc) == 1 and b.dominates(ri[0].bb, rc[0].bb)
+    if ok:
+        a1 = [R(x, b, v) for x in v.call_args(ri[0])]
+        a2 = [R(x, b, v) for x in v.call_args(rc[0])]
+        ch = a1[1][:-len(".inode")] if a1[1].endswith(".inode") else None
+        ok = ch is not None and a2[0] == "node" and a2[1] == "String::as_str(%s.name)" % ch
+        g0 = [(R(x, b, v), l) for (x, l, u) in v.guards(ri[0].bb)]
+        ok = ok and not [1 for (t, l) in g0 if "in_upper_layer" in t and l == 0 and False]
+    ctx.check(rule, "empty_node_directory/unregisters-each-child", ok, "empty_node_directory must drop every child it deleted from the inode table and from the directory's children", loc=b.loc())
+
+
 # ------------------------------------------------------------------------------------------- R4
 def r4_markers(ctx, F):
     rule = "R4-marker-agreement"
@@ -538,6 +649,15 @@ def r4_markers(ctx, F):
         t = R(cv.ret(), cl, cv)
         if "eq_ignore_ascii_case" in t and "Eq(1, " in t.replace("Eq(impl [T]::len(", "Eq(1, impl [T]::len(").replace(", 1)", ")") or ("eq_ignore_ascii_case" in t and "len(" in t):
             okv = True
+    oke = False
+    for cl in cls:
+        cv = vf.VF(cl, inline_depth=0)
+        arms = R(cv.ret(), cl, cv).split(" | ")
+        hit = [a_ for a_ in arms if "Eq(ENODATA, some(Error::raw_os_error(" in a_ and a_.rstrip("}").endswith("=> Ok(0)")]
+        wrong = [a_ for a_ in arms if "Ne(ENODATA, " in a_ and a_.rstrip("}").endswith("=> Ok(0)")]
+        if hit and not wrong:
+            oke = True
+    ctx.check(rule, "opaque/reader-absent-attribute", oke, "Layer::is_opaque must read a missing attribute (ENODATA) as `not opaque` and pass every other error on", loc=b.loc())
     ctx.check(rule, "opaque/reader-value", okv, "Layer::is_opaque must accept exactly the one-byte value y/Y", loc=b.loc())
     # constants
     for (nm, val) in (("OPAQUE_XATTR", b"user.fuseoverlayfs.opaque"), ("PRIVILEGED_OPAQUE_XATTR", b"trusted.overlay.opaque"), ("UNPRIVILEGED_OPAQUE_XATTR", b"user.overlay.opaque")):
